@@ -444,6 +444,10 @@ static void mode_solve(int shard, int nshards) {
         // a W-cycle visits level l 2^l times: bound the depth (coarsening can stall on convection)
         if (ncycle > 1) p.put("precond.amg.max_levels", g.range(2, 4));
         else if (g.coin(0.2)) p.put("precond.amg.max_levels", g.range(2, 3));
+        // known finding owned by C02 (not re-reported here): smoothed_aggr_emin yields P = 0 for an aggregate
+        // that is a whole two-node component of a coarse operator -> zero coarse row -> NaN.  It needs a
+        // second coarsening step on these families, so emin is sampled with one coarsening step.
+        if (coars == "smoothed_aggr_emin") p.put("precond.amg.max_levels", 2);
         solver_params(p, s, in.side, in.par, in.opt, in.maxit, in.tol);
         if (s == "lgmres") { p.put("solver.M", std::max(1, in.par - 1)); p.put("solver.K", 1); in.par = std::max(1, in.par - 1) + 1; }
         rhs_and_guess(g, *pb.A, g.below(6), in.f, in.x0);
